@@ -74,7 +74,7 @@ def build(tier):
     for sn, sd in scal:
         for k, nm in names.items():
             groups.append(Group("rotation.%s.%s" % (nm, sn), pre + rot + H_ROT, "h_rot", loop_contracts=False, solver="kissat", defines=[sd, "CLAUSE=%d" % k],
-                                timeout=900 if sn == "double" else 400, flags=[], functions=[QH + ":compute_rotation", QH + ":stable_scaling"], expect_classes=["rotation:"],
+                                timeout=(2400 if nm == "r-range" else 900) if sn == "double" else 400, flags=[], functions=[QH + ":compute_rotation", QH + ":stable_scaling"], expect_classes=["rotation:"],
                                 note="loop-free, full finite domain |x|,|y| <= MAX/4; one clause per run"))
     # exact cases in double are cheap: keep them in the quick tier too
     if tier == "quick":
